@@ -520,15 +520,11 @@ def c02(ctx):
     # bulk form: one entry per distinct index in increasing index order (structural clause)
     RS.rule_r12_callsites(ctx, prog)
     bulk = prog.find("sort::get_many_from_sorted_mut_unchecked")
-    r = RT.ds(bulk.return_expr()) if hasattr(RT, "ds") else None
-    finals = [RT.ds(bulk.def_expr(0, d)) for d in bulk.reaching_defs(0, bulk.exits()[0], "term")]
     okz = False
-    for f in finals:
-        if isinstance(f, tuple) and f[0] == "call" and f[1] == "collect":
-            z = RT.ds(f[3][0])
-            if z[0] == "call" and z[1] == "zip":
-                l0 = RL.producer_chain(prog, bulk, z[3][0])
-                okz = l0[3] is None and RT.ds(l0[1])[:2] == ("param", 2)
+    z = RSG.bulk_result_zip(bulk)
+    if z is not None:
+        l0 = RL.producer_chain(prog, bulk, z[3][0])
+        okz = l0[3] is None and RT.ds(l0[1])[:2] == ("param", 2)
     ctx.ob("R9", "get_many_from_sorted_mut_unchecked/index-value-map", okz, bulk.where(),
            "the IndexMap is collected from indexes.iter().zip(values) in index order (indexes sorted+deduped by R12)" if okz else
            "the result map is not built by zipping the sorted index list with the values", what="bulk result not keyed in increasing index order")
